@@ -101,6 +101,10 @@ func (r ReservationToPodEventHandler) OnDelete(obj interface{}) {
 }
 
 func IsObjValidActiveReservation(obj interface{}) bool {
+	// a delete event may carry a tombstone; it must pass the filter so that OnDelete can release the reservation
+	if tombstone, ok := obj.(cache.DeletedFinalStateUnknown); ok {
+		obj = tombstone.Obj
+	}
 	reservation, _ := obj.(*schedulingv1alpha1.Reservation)
 	err := ValidateReservation(reservation)
 	if err != nil {
